@@ -53,6 +53,7 @@ def gen_plan(base_seed, i, tier):
             rows.insert(0, "CCO>>CCO")
     items = rows
     passthrough = []
+    id_col = None
     if source != "list":
         nasty = ['a,b', 'say "hi"', "two\nlines", "x;y", "plain", "tab\there"]  # text that survives a CSV round trip unchanged
         items = [({} if r == "<EMPTY-RECORD>" else {"reaction": r, "tag": "t%d-%04x" % (k, rng.getrandbits(16)), "n": k * 7 + 1, "note": rng.choice(nasty)}) for k, r in enumerate(rows)]
@@ -61,6 +62,17 @@ def gen_plan(base_seed, i, tier):
             # a pandas index column as left behind by DataFrame.to_csv of a filtered / re-sorted table
             labels = rng.sample(range(0, 10 * len(items) + 10), len(items))
             items = [(dict({"Unnamed: 0": lab}, **it) if it else it) for lab, it in zip(labels, items)]
+        if rng.random() < 0.25:
+            # the input already carries a column named like the tool's internal row id
+            idk = rng.choice(["id", "id", "R-id", "index"])
+            vals = list(range(len(items)))
+            rng.shuffle(vals)
+            style = rng.choice(["perm", "str", "big"])
+            for it, v in zip(items, vals):
+                if it:
+                    it[idk] = v if style == "perm" else ("row-%d" % v if style == "str" else 1000 + 7 * v)
+            if idk == "R-id" and source != "cli" and rng.random() < 0.5:
+                id_col = "R-id"
         if source in ("dict", "json") and rng.random() < 0.3:
             # heterogeneous records: extra keys in some rows, other key order
             for it in items:
@@ -71,6 +83,8 @@ def gen_plan(base_seed, i, tier):
                         it[k2] = it.pop(k2)
     cfg = common.gen_config(rng, len(rows), thresholds=(0,))
     cfg["batch_size"] = rng.choice([None, 1, 2, 3, len(rows), len(rows) + 1, rng.randint(1, len(rows) + 1)])
+    if id_col:
+        cfg["id_col"] = id_col
     return {
         "property": "C05",
         "kind": "poison",
